@@ -123,12 +123,22 @@ impl Integer {
     /// Returns the [IntegerType] of `self`.
     /// The [IntegerType] describes the absolute range of an integer
     pub fn int_type(&self) -> IntegerType {
-        // Of serially applied constraints the last one decides whether the type is extensible
+        // Of serially applied constraints the last one decides whether the type is extensible.
+        // In a set operation (`(0..10 | 20, ...)`) the marker is attached to the last operand
+        fn last_operand_is_extensible(set: &ElementOrSetOperation) -> bool {
+            match set {
+                ElementOrSetOperation::Element(SubtypeElements::ValueRange {
+                    extensible, ..
+                })
+                | ElementOrSetOperation::Element(SubtypeElements::SingleValue {
+                    extensible, ..
+                }) => *extensible,
+                ElementOrSetOperation::Element(_) => false,
+                ElementOrSetOperation::SetOperation(op) => last_operand_is_extensible(&op.operant),
+            }
+        }
         if self.constraints.last().is_some_and(|c| {
-            c.unpack_as_value_range()
-                .map(|(_, _, extensible)| extensible)
-                .or_else(|_| c.unpack_as_strict_value().map(|(_, extensible)| extensible))
-                .unwrap_or(false)
+            matches!(c, Constraint::Subtype(set) if set.extensible || last_operand_is_extensible(&set.set))
         }) {
             return IntegerType::Unbounded;
         }
